@@ -265,7 +265,7 @@ def run_lines(recs, ctx="solo0", modes="plain", opts="all", chunk=8, variant="pl
     return events
 
 
-BAD_RE = re.compile(r'^<<"BAD", "([^"]*)", "([^"]*)", (-?\d+), "([^"]*)", "([^"]*)">>')
+BAD_RE = re.compile(r'^"BAD\|([^|]*)\|([^|]*)\|(-?\d+)\|([^|]*)\|([^|]*)"$')
 
 
 def monitor(events, module="EncTrace", shards=None, timeout=3000):
@@ -305,6 +305,10 @@ def monitor(events, module="EncTrace", shards=None, timeout=3000):
             os.replace(tr, keep)
             raise Infra("monitor TLC failed (rc=%s) on %s:\n%s" % (p.returncode, keep, out[-4000:]))
         judged += n
+        nraw = sum(1 for ln in out.splitlines() if "BAD" in ln)
+        nparsed = sum(1 for ln in out.splitlines() if BAD_RE.match(ln))
+        if nraw != nparsed:
+            raise (Infra if "alverif" in __name__ else A.Infra)("monitor output has %d BAD lines but %d could be parsed:\n%s" % (nraw, nparsed, "\n".join(l for l in out.splitlines() if "BAD" in l)[:2000]))
         for ln in out.splitlines():
             mm = BAD_RE.match(ln)
             if mm:
